@@ -4,6 +4,7 @@ import Csverif.Driver.Runnable
 import Csverif.Driver.Monitor
 import Csverif.Driver.Sched
 import Csverif.Driver.HCache
+import Csverif.Driver.HDict
 import Csverif.Driver.State
 import Csverif.Driver.MockFS
 import Csverif.Driver.MonC10
@@ -47,6 +48,7 @@ def main (args : List String) : IO UInt32 := do
   | ["monitor"] => loopStateless stdin stdout Driver.Monitor.step; stdout.flush; return 0
   | ["sched"] => loopState stdin stdout ({} : Driver.Sched.DSt) Driver.Sched.step; stdout.flush; return 0
   | ["hcache"] => loopState stdin stdout Driver.HCache.St.init Driver.HCache.step; stdout.flush; return 0
+  | ["dict"] => loopState stdin stdout Driver.HDict.St.init Driver.HDict.step; stdout.flush; return 0
   | ["state"] => loopState stdin stdout ({} : Driver.State.DSt) Driver.State.step; stdout.flush; return 0
   | ["mockfs"] => loopState stdin stdout Driver.MockFS.dInit Driver.MockFS.step; stdout.flush; return 0
   | ["tree"] => loopState stdin stdout Driver.MockFS.tInit Driver.MockFS.stepTree; stdout.flush; return 0
